@@ -1,7 +1,7 @@
 """C06 -- a stale or never-built index is never silently served."""
 import paths
 from facts import strip, show, walk
-from rules import (db_ops, cursor_ops, key_info, same, strip_all, is_public, owner_path, cursor_root_call,
+from rules import (db_ops, cursor_ops, key_info, same, full_kind_range, strip_all, is_public, owner_path, cursor_root_call,
                    loop_every_iteration, sp)
 
 EXPL = ("Decided on the MIR control-flow graphs: (R-MARK) in every public Writer method, from the success continuation "
@@ -151,14 +151,13 @@ def r_open(ctx):
                         good = all(f.dominates(s, o) for o in okb)
                         why = 'D::name() != metadata.distance'
                 elif v == 'NeedBuild' and e[0] == 'bool':
-                    it = _calls_in(e[1], 'prefix_iter')
                     c0 = strip(e[1])
                     pol = None
                     if c0[0] == 'call' and c0[1].endswith('::is_some'):
                         pol = e[2]
                     elif c0[0] == 'call' and c0[1].endswith('::is_none'):
                         pol = not e[2]
-                    if it and (key_info(it[0][2][2]) or (None,))[0] == 'p-updated' and pol and _calls_in(e[1], 'Iterator::next'):
+                    if pol and updated_scan(e[1]):
                         good = all(f.dominates(s, o) for o in okb)
                         why = 'updated-mark scan non-empty'
             ctx.check(good, rule, key, 'src/reader.rs:%d' % paths.block_line(f, eb),
@@ -206,6 +205,22 @@ def r_need_build(ctx):
               'Writer::need_build is not {updated scan non-empty} OR {metadata absent}: %s' % sorted(set(bad))[:4])
 
 
+def updated_scan(t):
+    """`t` observes the first entry of a scan over exactly the updated marks of one index:
+    next(prefix_iter(Prefix::updated(idx))) or next(range(Key::updated(idx,0)..=Key::updated(idx,u32::MAX)))"""
+    if not _calls_in(t, 'Iterator::next'):
+        return False
+    it = _calls_in(t, 'prefix_iter')
+    if it and len(it[0][2]) > 2 and (key_info(it[0][2][2]) or (None,))[0] == 'p-updated':
+        return True
+    for r in _calls_in(t, '::range'):
+        if r[1].startswith('heed::Database') and len(r[2]) > 2:
+            fr = full_kind_range(r[2][2])
+            if fr and fr[0] == 'updated':
+                return True
+    return False
+
+
 def _observation(t, truth):
     c0 = strip(t)
     if c0[0] != 'call':
@@ -217,8 +232,7 @@ def _observation(t, truth):
         pol = not truth
     else:
         return None
-    it = _calls_in(t, 'prefix_iter')
-    if it and (key_info(it[0][2][2]) or (None,))[0] == 'p-updated' and _calls_in(t, 'Iterator::next'):
+    if updated_scan(t):
         return 'updated-nonempty' if pol else 'updated-empty'
     g = _calls_in(t, 'heed::Database::<KC, DC, C, CDUP>::get')
     if g and (key_info(g[0][2][2]) or (None,))[0] == 'metadata':
